@@ -76,7 +76,7 @@ PROPS["C01"] = {
                       "C01_integrated_set_is_schedule_independent": "unbounded", "C01_delete_sets_commute": "unbounded",
                       "C01_sequence_order_converges": "unbounded: origin-forest invariant of reachable lists, the scan computes an index among the children of the origin, diamond lemma for two admissible insertions, induction on the history (Crdt/YataUnboundedProofs.v, 2 770 lines)",
                       "C01_generated_histories_are_well_formed": "unbounded (links wf_history to the executable generator)"},
-    "rule": HIST_RULE + "; implementation-only oracle at quiescence: all replicas expose the same content through the public read API (text diff with attributes, arrays, maps, XML tree with sorted attributes, nested types) and the same item order incl. tombstones",
+    "rule": "delete sets (of undelivered messages, or ranges inside blocks / over holes / beyond the clock / for unknown clients) applied to the stores of seeded flat histories with out-of-order delivery: block lists (clock, length, kind) inside the transaction and the unapplied rest (Store::pending_ds, hook dump) must equal the result of the Coq transcription of apply_delete; " + HIST_RULE + "; implementation-only oracle at quiescence: all replicas expose the same content through the public read API (text diff with attributes, arrays, maps, XML tree with sorted attributes, nested types) and the same item order incl. tombstones",
     "trusted_base": [_MODEL_NOTE, "order convergence is proved for one sequence of unit insertions (the setting of YataFinite.v); deletions are handled by the separate order-insensitivity theorems; nested types and map chains reuse the same insertion function per parent / key"],
     "modelled_not_verified": ["block-level integration (units of a block integrated atomically)", "BlockPicker order", "v2 encoding (the model consumes the v1 form of every update; v2 deliveries are checked by the implementation-only oracle)"],
     "assumptions": ["gc off and cleanup_formatting off on all replicas of these histories (C15 covers gc)", "embeds / format values are JSON-representable (they travel as JSON text)"],
@@ -100,9 +100,9 @@ PROPS["C07"] = {
 }
 PROPS["C08"] = {
     "level": "proof", "theorems": _GEN["C08"], "theorem_kinds": {},
-    "rule": "update pools from seeded histories (transaction updates, diffs against stale vectors, full states of replicas with gaps and GC blocks): merge_updates vs sequential application (v1, v2; duplicates, shuffled, nested), diff_updates vs apply, encode_state_vector_from_update on gap-free states; the Coq model decodes merged v1 updates and must reach the state it reaches from the inputs; every merge (2..5 arguments, four per case, and one of 22..40 arguments per case) is also computed by the extracted transcription of Update::merge_updates (Crdt/Merge.v) and must give the same update (same bytes, or the same decoded blocks where the implementation writes Any maps in hash order); the share of argument lists satisfying the hypothesis of the unit-preservation theorems (mrg_wf / mrg_wf_norm) is recorded. Documents are compared on public content, visible item order, integrated and deleted id sets, pending flag. Because yrs stashes the rest of a client's blocks behind a block with a missing dependency, a merged update may lag behind the sequential application until the dependency arrives: such a difference is accepted only if it disappears once every message of the history is delivered (counted as c08_merge_stash_lag_only)",
+    "rule": "update pools from seeded histories (transaction updates, diffs against stale vectors, full states of replicas with gaps and GC blocks): merge_updates vs sequential application (v1, v2; duplicates, shuffled, nested), diff_updates vs apply, encode_state_vector_from_update on gap-free states; the Coq model decodes merged v1 updates and must reach the state it reaches from the inputs; every merge (2..5 arguments, four per case, and one of 22..40 arguments per case) is also computed by the extracted transcription of Update::merge_updates (Crdt/Merge.v) and must give the same update (same bytes, or the same decoded blocks where the implementation writes Any maps in hash order); likewise every diff_updates_v1 and encode_state_vector_from_update_v1 against the transcriptions of Crdt/Diff.v; the share of argument lists satisfying the hypothesis of the unit-preservation theorems (mrg_wf / mrg_wf_norm) is recorded. Documents are compared on public content, visible item order, integrated and deleted id sets, pending flag. Because yrs stashes the rest of a client's blocks behind a block with a missing dependency, a merged update may lag behind the sequential application until the dependency arrives: such a difference is accepted only if it disappears once every message of the history is delivered (counted as c08_merge_stash_lag_only)",
     "trusted_base": [_MODEL_NOTE, "Update::merge_updates is transcribed by hand (Crdt/Merge.v); slice::sort_by is modelled as a stable insertion sort, which is exact because the comparator is proved to be a total preorder"],
-    "modelled_not_verified": ["Update::encode_diff slicing (diff_updates)", "encode_state_vector_from_update"], "assumptions": [],
+    "modelled_not_verified": ["the v2 entry points (merge_updates_v2, diff_updates_v2, ...) beyond their v2 codec"], "assumptions": [],
 }
 PROPS["C13"] = {
     "level": "proof", "theorems": _GEN["C13"], "theorem_kinds": {},
